@@ -197,6 +197,57 @@ func find[V any](cs []mapx.VerifChain[Key, V], k Key) any {
 	return nil
 }
 
+// locate: where the key sits in the chain of its code before a call (white box; statistics only):
+// chain length (0: no bucket) and index of the node that Equals it (-1: none).
+func locate[V any](cs []mapx.VerifChain[Key, V], k Key) (n, pos int) {
+	for _, c := range cs {
+		if c.Code != k.Code() {
+			continue
+		}
+		n, pos = len(c.Nodes), -1
+		for i, e := range c.Nodes {
+			if e.Key.Equals(k) {
+				return n, i
+			}
+		}
+		return n, pos
+	}
+	return 0, -1
+}
+
+// chain position classes for the coverage histograms
+func posClass(n, pos int) string {
+	switch {
+	case n == 0:
+		return "no-bucket"
+	case pos < 0:
+		return "not-in-chain"
+	case n == 1:
+		return "only"
+	case pos == 0:
+		return "head"
+	case pos == n-1:
+		return "tail"
+	}
+	return "middle"
+}
+
+// locator is implemented by the hash-backed boxes
+type locator interface{ locate(k int) (n, pos int) }
+
+func (h *hashBox) locate(k int) (int, int) { return locate(h.m.VerifChains(), h.key(k)) }
+func (h *linkedBox) locate(k int) (int, int) {
+	cs, _ := mapx.VerifLinkedChains(h.m)
+	return locate(cs, h.key(k))
+}
+func (h *multiBox[K]) locate(k int) (int, int) {
+	if h.hashM == nil {
+		return 0, -1
+	}
+	cs, _ := mapx.VerifMultiChains(h.hashM)
+	return locate(cs, Key{ID: k, Kind: h.kind})
+}
+
 func (b *bookkeeping) track(refs []any) {
 	live := map[any]bool{}
 	for _, r := range refs {
@@ -226,8 +277,14 @@ type hashBox struct {
 	bk   *bookkeeping
 }
 
+// okv renders a (value, found) pair.  The model's answer for an absent key is Go's (zero value, false):
+// a non-zero value next to ok == false (e.g. the value of the last node the chain walk looked at) is
+// a different answer and is printed as such — callers using `v, _ := m.Get(k)` would see it.
 func okv(v int, ok bool) string {
 	if !ok {
+		if v != 0 {
+			return "miss-nonzero:" + strconv.Itoa(v)
+		}
 		return "miss"
 	}
 	return "ok:" + strconv.Itoa(v)
@@ -408,6 +465,9 @@ func (h *multiBox[K]) del(k int) string {
 		h.bk.freedRefs[ref] = true
 	}
 	if !ok {
+		if v != nil {
+			return "miss-nonnil"
+		}
 		return "miss"
 	}
 	res := "ok:" + rList(v)
@@ -731,6 +791,13 @@ type stats struct {
 	Lines     int            `json:"lines"`
 	Distinct  int            `json:"distinct_state_op_pairs"`
 	LenHist   map[string]int `json:"len_hist"`
+	// hash-backed containers, white box: where in its collision chain the key of a put / delete / get sat
+	// before the call, and where a node taken back from the pool was linked in
+	PutPos      map[string]int `json:"put_chain_pos"`
+	DelPos      map[string]int `json:"delete_chain_pos"`
+	GetPos      map[string]int `json:"get_chain_pos"`
+	RecycledPos map[string]int `json:"recycled_node_linked_at"`
+	MissNonzero int            `json:"miss_with_nonzero_value"`
 }
 
 // whiteBox: the hook really reads the internals (false: the black-box stub is installed)
@@ -816,6 +883,22 @@ func run(ops []string, out *vlib.Out, st *stats) {
 		}
 		bk.freed = ""
 		var res string
+		cls := ""
+		if lc, ok := b.(locator); ok && whiteBox && len(w) > 1 && (w[0] == "put" || w[0] == "delete" || w[0] == "get") {
+			if _, isMultiB := b.(*multiBox[int]); !isMultiB {
+				k, _ := strconv.Atoi(w[1])
+				cls = posClass(lc.locate(k))
+				switch w[0] {
+				case "put":
+					st.PutPos[cls]++
+				case "delete":
+					st.DelPos[cls]++
+				default:
+					st.GetPos[cls]++
+				}
+			}
+		}
+		recycledBefore := bk.recycled
 		p, hung := guard(func() {
 			switch w[0] {
 			case "put":
@@ -869,6 +952,16 @@ func run(ops []string, out *vlib.Out, st *stats) {
 		if bk.freed != "" {
 			after += " freed=" + bk.freed
 			st.Freed++
+		}
+		if bk.recycled > recycledBefore && cls != "" {
+			if cls == "no-bucket" {
+				st.RecycledPos["new-bucket-head"]++
+			} else {
+				st.RecycledPos["chain-tail"]++
+			}
+		}
+		if strings.HasPrefix(res, "miss-non") {
+			st.MissNonzero++
 		}
 		if n > st.MaxLen {
 			st.MaxLen = n
@@ -925,7 +1018,8 @@ func main() {
 		// to the pool by Delete is handed out again by a later Put
 		debug.SetGCPercent(-1)
 		st := &stats{Ops: map[string]int{}, Results: map[string]int{}, Kinds: map[string]int{},
-			LenHist: map[string]int{}}
+			LenHist: map[string]int{}, PutPos: map[string]int{}, DelPos: map[string]int{}, GetPos: map[string]int{},
+			RecycledPos: map[string]int{}}
 		run(vlib.ReadLines(*opsF), out, st)
 		if *statsF != "" {
 			b, _ := json.MarshalIndent(st, "", " ")
